@@ -1083,7 +1083,7 @@ def c18e(F, R):
                         if c.endswith("mem::take") or c.endswith("mem::replace") or c.endswith("mem::swap"):
                             problems.append((f"{short(c)}|{short(q)}", f"`{c}` moves the diagnostics list out in {q}", loc(par)))
                         break
-                    if k == "Assign" and par.get("lhs") is x and short(q) != "new":
+                    if k == "Assign" and par.get("l") is x and short(q) != "new":
                         problems.append((f"assign|{short(q)}", f"{root} is reassigned in {q}", loc(par)))
                         break
                     if k == "Let" and par.get("init") is x and par["pat"].get("k") == "PBinding":
